@@ -94,10 +94,11 @@ type TermStore struct {
 	False *Term
 	axioms map[int]*Term // term id -> fact that must accompany the term in every solver scope using it
 	canon  map[int]bool  // 256-bit terms known to be canonical field elements (< P) on every path that uses them
+	modadd map[int][2]*Term // result of a field addition (x+y mod P, x,y canonical) -> its operands
 }
 
 func NewTermStore() *TermStore {
-	s := &TermStore{tab: map[string]*Term{}, ufs: map[string]*UFDecl{}, axioms: map[int]*Term{}, canon: map[int]bool{}}
+	s := &TermStore{tab: map[string]*Term{}, ufs: map[string]*UFDecl{}, axioms: map[int]*Term{}, canon: map[int]bool{}, modadd: map[int][2]*Term{}}
 	s.True = s.mk(&Term{op: OpConst, w: 0, c: 1})
 	s.False = s.mk(&Term{op: OpConst, w: 0, c: 0})
 	return s
@@ -523,6 +524,7 @@ func (s *TermStore) Extract(a *Term, hi, lo int) *Term {
 		if lo >= in.w {
 			return s.Const(w, 0)
 		}
+		return s.ZExt(s.Extract(in, in.w-1, lo), w)
 	case OpConcat:
 		h, l := a.args[0], a.args[1]
 		if hi < l.w {
@@ -613,6 +615,16 @@ func (s *TermStore) Concat(hi, lo *Term) *Term {
 	if hi.IsConst() && hi.Big().Sign() == 0 {
 		return s.ZExt(lo, hi.w+lo.w)
 	}
+	// concat(zext(a), lo) = zext(concat(a, lo))
+	if hi.op == OpZExt {
+		return s.ZExt(s.Concat(hi.args[0], lo), hi.w+lo.w)
+	}
+	// concat(concat(h, e1), e2) = concat(h, extract) when e1, e2 are adjacent extracts of one term
+	if hi.op == OpConcat && lo.op == OpExtract {
+		if e1 := hi.args[1]; e1.op == OpExtract && e1.args[0] == lo.args[0] && e1.p2 == lo.p1+1 {
+			return s.Concat(hi.args[0], s.Extract(lo.args[0], e1.p1, lo.p2))
+		}
+	}
 	return s.mk(&Term{op: OpConcat, w: hi.w + lo.w, args: []*Term{hi, lo}})
 }
 
@@ -674,6 +686,20 @@ func (s *TermStore) Eq(a, b *Term) *Term {
 			return s.Bool(a.c == b.c)
 		}
 		return s.Bool(a.big.Cmp(b.big) == 0)
+	}
+	if a.w == 256 {
+		// x+c == y+c (mod P) <=> x == y for canonical field elements (adding c is a bijection of the field)
+		if ma, ok := s.modadd[a.id]; ok {
+			if mb, ok := s.modadd[b.id]; ok {
+				for i := 0; i < 2; i++ {
+					for j := 0; j < 2; j++ {
+						if ma[i] == mb[j] {
+							return s.Eq(ma[1-i], mb[1-j])
+						}
+					}
+				}
+			}
+		}
 	}
 	if a.w == 0 {
 		if a.IsTrue() {
